@@ -196,26 +196,6 @@ Proof.
   destruct H as [H | []]. now subst.
 Qed.
 
-(** * non-trivial instances (byte level, through [scan]) *)
-Definition ex_wire : bytes :=   (* HTTP/1.1 100 C\r\n\r\nHTTP/1.1 200 OK\r\nTransfer-Encoding: chunked\r\n\r\n3\r\nabc\r\n0\r\n\r\n *)
-  [72;84;84;80;47;49;46;49;32;49;48;48;32;67;13;10;13;10;
-   72;84;84;80;47;49;46;49;32;50;48;48;32;79;75;13;10;
-   84;114;97;110;115;102;101;114;45;69;110;99;111;100;105;110;103;58;32;99;104;117;110;107;101;100;13;10;13;10;
-   51;13;10;97;98;99;13;10;48;13;10;13;10].
-
-Example scan_complete : scan [71;69;84] ex_wire = mkView (HOk 200 FChunked) [97;98;99] BFinished.
-Proof. vm_compute. reflexivity. Qed.
-
-Example scan_truncated :
-  scan [71;69;84] (firstn 70 ex_wire) = mkView (HOk 200 FChunked) [97;98] BOpen
-  /\ scan [71;69;84] (firstn 40 ex_wire) = mkView HNone [] BOpen.
-Proof. split; vm_compute; reflexivity. Qed.
-
-Example machine_truncated :
-  let s := run [PRecv; PHead 200 FChunked; PData [97]; UDeliver; PData [98]; PLost] in
-  m_fired s = [FResponse 200] /\ m_delivered s = [97; 98] /\ m_closed s = [RFailed].
-Proof. vm_compute. repeat split. Qed.
-
 Lemma reason_table : forall f fin,
   reason_of f fin =
   match f with
